@@ -88,7 +88,28 @@ class WorldA:
         self.on_reset: list[Any] = []  # observers of every single reset inside a burst
         self.on_compiled: list[Any] = []  # observers of a successful compile (before the birth tests)
         self.on_compile_error: list[Any] = []  # observers of a compile that raised: fn(circ, exc)
+        self.loc: dict[int, tuple[Any, int]] = {}  # id(symbolic tensor) -> last registration
+        self._loc_keepalive: list[Any] = []
+        FAULT_SEAM.observer = self._observe
         self._new_context()
+
+    def _observe(self, site: str, args: tuple, kwargs: dict | None = None) -> None:
+        """The model's own copy of the compiled-parameter registry of the long-lived context:
+        every ``register_compiled_parameter(sp, cp, fold_idx=...)`` it performs, latest wins."""
+        if site != "TorchCompilerState.register_compiled_parameter" or self.ctx is None:
+            return
+        try:
+            state = oracles.compiler_of(self.ctx).state
+        except HarnessError:
+            return
+        if args[0] is not state:
+            return  # a reference context of the harness
+        sp, cp = args[1], args[2]
+        fold_idx = (kwargs or {}).get("fold_idx")
+        if fold_idx is None and len(args) > 3:
+            fold_idx = args[3]
+        self.loc[id(sp)] = (cp, 0 if fold_idx is None else int(fold_idx))
+        self._loc_keepalive.append(sp)
 
     # ------------------------------------------------------------------ utilities
 
@@ -98,6 +119,8 @@ class WorldA:
         self.ctx = PipelineContext(
             backend="torch", semiring=self.semiring, fold=self.fold, optimize=self.optimize
         )
+        self.loc = {}
+        self._loc_keepalive = []
 
     def alive(self, kind: str | None = None) -> list[Circ]:
         return [
@@ -138,7 +161,32 @@ class WorldA:
         return [oracles.evaluate(c.cc, X) for X in self.probes_for(c)]
 
     def theta(self, sp: Any) -> np.ndarray:
-        return oracles.registry_value(self.ctx, sp).detach().cpu().resolve_conj().numpy().copy()
+        """Current value of a symbolic tensor parameter, read through the compiler's registry -
+        which must still hold the last registration the compiler itself made for it (the
+        registry 'must stay valid across later compilations in the same context')."""
+        rec = self.loc.get(id(sp))
+        try:
+            tp, idx = oracles.registry_entry(self.ctx, sp)
+        except (HarnessError, Violation):
+            raise
+        except Exception as e:
+            if rec is not None and "I1" in self.checks:
+                raise Violation(
+                    "I1",
+                    f"the compiler's registry no longer has the entry it registered for a tensor "
+                    f"parameter of shape {tuple(sp.shape)} ({type(e).__name__})",
+                )
+            if rec is None:
+                raise
+            tp, idx = rec
+        else:
+            if rec is not None and "I1" in self.checks and (tp is not rec[0] or int(idx) != rec[1]):
+                raise Violation(
+                    "I1",
+                    f"the compiler's registry designates another tensor / fold for a parameter of "
+                    f"shape {tuple(sp.shape)} than the last one it registered (fold {idx} vs {rec[1]})",
+                )
+        return tp()[idx].detach().cpu().resolve_conj().numpy().copy()
 
     def learnable_tensors(self, c: Circ) -> list[torch.nn.Parameter]:
         seen: set[int] = set()
@@ -226,6 +274,8 @@ class WorldA:
                 self.tr.ev("fault", FAULT_SEAM.last_fired)
                 # nothing must be half-registered, and everything else must still be right
                 self.check_fresh(list(self.alive()), where="after-fault")
+            except (HarnessError, Violation):
+                raise
             except Exception as e:
                 c.excluded = f"birth:{type(e).__name__}"
                 self.tr.count(f"excluded:{c.excluded}")
@@ -262,6 +312,22 @@ class WorldA:
         c.cc = cc
         for fn in self.on_compiled:
             fn(c)
+        if "I1" in self.checks:
+            # the registry is how derived circuits reach these tensors: straight after a
+            # compilation it must designate a readable slice for every tensor parameter of the
+            # circuit (otherwise nothing can be derived from it in this context)
+            for sp in c.tparams:
+                try:
+                    self.theta(sp)
+                except (HarnessError, Violation):
+                    raise
+                except Exception as e:
+                    raise Violation(
+                        "I1",
+                        f"after compiling {c.name} ({self._describe(c)}) the registry entry of its "
+                        f"tensor parameter of shape {tuple(sp.shape)} cannot be read: "
+                        f"{type(e).__name__}: {str(e)[:100]}",
+                    )
         # birth: evaluate immediately; the same-flags reference must exist as well
         try:
             outs = [oracles.evaluate(cc, X) for X in self._probes_for_new(c)]
@@ -286,7 +352,7 @@ class WorldA:
             ref = self._reference(c)
             for X in self._probes_for_new(c):
                 oracles.evaluate(ref, X)
-        except HarnessError:
+        except (HarnessError, Violation):
             raise
         except Exception as e:
             c.excluded = f"birth-ref:{type(e).__name__}"
@@ -315,7 +381,7 @@ class WorldA:
             for X in ([None] if len(c.sc.scope) == 0 else self.probes_for_sc(c)):
                 oracles.evaluate(ref, X)
             return True
-        except HarnessError:
+        except (HarnessError, Violation):
             raise
         except Exception:
             return False
@@ -324,7 +390,7 @@ class WorldA:
         try:
             oracles.evaluate(self._reference(c), X)
             return True
-        except HarnessError:
+        except (HarnessError, Violation):
             raise
         except Exception:
             return False
@@ -460,7 +526,7 @@ class WorldA:
 
                         seed_rng(op["seed"] + 1)
                         precompiled = _pl.compile(c.sc)
-        except HarnessError:
+        except (HarnessError, Violation):
             raise
         except (*self.refusals, ValueError) as e:
             c.excluded = f"refusal:{type(e).__name__}"
@@ -771,7 +837,7 @@ class WorldA:
             return {"status": "input-excluded"}
         try:
             b = oracles.evaluate(self._reference(c), X)
-        except HarnessError:
+        except (HarnessError, Violation):
             raise
         except Exception as e:
             self.tr.count(f"eval:reference-failed:{type(e).__name__}")
@@ -819,7 +885,7 @@ class WorldA:
                     oracles.evaluate(c.cc, X)
                 c.alive = True
                 c.born = self.tr.step
-            except HarnessError:
+            except (HarnessError, Violation):
                 raise
             except Exception as e:
                 raise Violation(
@@ -915,7 +981,7 @@ class WorldA:
             try:
                 ref = self._reference(c)
                 refs = [oracles.evaluate(ref, X) for X in self.probes_for(c)]
-            except HarnessError:
+            except (HarnessError, Violation):
                 raise
             except Exception as e:
                 # the reference model itself cannot be built for the current values: no verdict
@@ -929,6 +995,8 @@ class WorldA:
                     for X, a in zip(self.probes_for(c), outs):
                         v, _ = compare_outputs(a, oracles.evaluate(pref, X), self.semiring)
                         self.tr.count("plain:agree" if v in ("ok", "undefined") else "plain:flag-dependent")
+                except (HarnessError, Violation):
+                    raise
                 except Exception:
                     self.tr.count("plain:error")
 
@@ -991,7 +1059,7 @@ class WorldA:
             self._rel_tol = rel
             self._rel_nontrivial = nontrivial
             return self._relation(c, c.cc if cc is None else cc)
-        except HarnessError:
+        except (HarnessError, Violation):
             raise
         except Exception:
             return None
@@ -1105,7 +1173,7 @@ class WorldA:
                 # is wrong for these values (C03-C07, not claimed): stop tracking, no alarm.
                 try:
                     rr = self._relation_holds(c, rel=self.REL_REF, cc=self._reference(c))
-                except HarnessError:
+                except (HarnessError, Violation):
                     raise
                 except Exception:
                     rr = None
